@@ -42,11 +42,20 @@ def coq_type(t):
         return 'bool'
     if t == 'S':
         return 'pslice'
+    if t == 'OS':   # slice with optional (None) int bounds, unit step  [C10]
+        return 'oslice'
+    if t == 'N':    # the value None, known statically (spec option "static_kinds")  [C14]
+        return 'unit'
     if isinstance(t, tuple) and t[0] == 'T':
         return '(' + ' * '.join(coq_type(x) for x in t[1:]) + ')'
     if isinstance(t, tuple) and t[0] == 'R':   # named record
         return t[1]
     raise ValueError(t)
+
+
+def _tup(t):
+    """JSON list -> (nested) tuple type."""
+    return tuple(_tup(x) for x in t) if isinstance(t, list) else t
 
 
 def float_lit(v: float) -> str:
@@ -66,11 +75,69 @@ class Fn:
     def __init__(self, spec, fdef: ast.FunctionDef):
         self.spec = spec
         self.fdef = fdef
-        self.records = spec.get("records", {})      # record name -> {python attr -> (coq projection, type)}
-        self.calls = spec.get("calls", {})          # python call name -> (coq name, [arg types], ret type)
+        # types written as JSON lists are normalised to tuples (no effect on specs that use plain strings)
+        self.records = {r: {a: (pt[0], _tup(pt[1])) for a, pt in fs.items()}
+                        for r, fs in spec.get("records", {}).items()}   # record name -> {python attr -> (coq projection, type)}
+        self.calls = {c: (v[0], [_tup(t) for t in v[1]], _tup(v[2]))
+                      for c, v in spec.get("calls", {}).items()}        # python call name -> (coq name, [arg types], ret type)
+        self.setters = spec.get("setters", {})      # [C10] python attr -> coq functional setter, for `local.attr = value`
         self.err = spec.get("error")                # coq term for raise, with its type = return type
         self.uses_T = False
         self.fresh = 0
+        # [C14] spec option "static_kinds": parameters may be declared 'N' (the value None) and conditions that
+        # only depend on the declared kinds (`x is None`, `if tuple_var:`, isinstance(x, (int, float)), `None in t`)
+        # are decided at translation time; only the live branch is translated (specialisation of the function
+        # to the declared argument kinds).  Off by default: no effect on other specs.
+        self.static_kinds = bool(spec.get("static_kinds"))
+
+    # [C14] ----- conditions decided by the declared kinds: True / False / None (= not static)
+    def static_cond(self, n, env):
+        if not self.static_kinds:
+            return None
+
+        def kind(e):
+            try:
+                return self.expr(e, env)[1]
+            except Untranslatable:
+                return None
+        if isinstance(n, ast.Compare) and len(n.ops) == 1:
+            op, right = n.ops[0], n.comparators[0]
+            if isinstance(op, (ast.Is, ast.IsNot)) and isinstance(right, ast.Constant) and right.value is None:
+                k = kind(n.left)
+                if k is None:
+                    return None
+                return (k == 'N') == isinstance(op, ast.Is)
+            if isinstance(op, (ast.In, ast.NotIn)) and isinstance(n.left, ast.Constant) and n.left.value is None:
+                k = kind(right)
+                if isinstance(k, tuple) and k[0] == 'T':
+                    return ('N' in k[1:]) == isinstance(op, ast.In)
+            return None
+        if isinstance(n, ast.Name):
+            k = kind(n)
+            if k == 'N':
+                return False
+            if isinstance(k, tuple) and k[0] == 'T' and len(k) > 1:
+                return True          # a non-empty tuple is truthy
+            return None
+        if isinstance(n, ast.Call) and isinstance(n.func, ast.Name) and n.func.id == "isinstance" and len(n.args) == 2 \
+                and isinstance(n.args[1], ast.Tuple) and [getattr(e, "id", None) for e in n.args[1].elts] == ["int", "float"]:
+            k = kind(n.args[0])
+            if k is None:
+                return None
+            return k in ('Z', 'F')
+        if isinstance(n, ast.UnaryOp) and isinstance(n.op, ast.Not):
+            v = self.static_cond(n.operand, env)
+            return None if v is None else (not v)
+        if isinstance(n, ast.BoolOp):
+            vs = [self.static_cond(v, env) for v in n.values]
+            if isinstance(n.op, ast.And):
+                if False in vs and vs.index(False) == min(i for i, v in enumerate(vs) if v is not True):
+                    return False    # everything before the first False is statically True
+                return True if all(v is True for v in vs) else None
+            if True in vs and vs.index(True) == min(i for i, v in enumerate(vs) if v is not False):
+                return True
+            return False if all(v is False for v in vs) else None
+        return None
 
     # ----- expressions: return (coq_text, type)
     def promote(self, node, tx, want):
@@ -92,6 +159,8 @@ class Fn:
             if isinstance(v, float):
                 self.uses_T = True
                 return (float_lit(v), 'F')
+            if v is None and self.static_kinds:   # [C14]
+                return ("tt", 'N')
             _fail(n, "constant %r" % (v,))
         if isinstance(n, ast.Name):
             if n.id not in env:
@@ -229,9 +298,20 @@ class Fn:
         _fail(f, "call target")
 
     def call(self, n, env):
+        # [C10] <optional-bounds slice>.indices(n) -> (start, stop, 1) of Base/Slice.v's [indices]
+        if isinstance(n.func, ast.Attribute) and n.func.attr == "indices" and len(n.args) == 1 and not n.keywords:
+            base = self.expr(n.func.value, env)
+            if base[1] == 'OS':
+                arg = self.expr(n.args[0], env)
+                if arg[1] != 'Z':
+                    _fail(n, "slice.indices of a non-int")
+                return ("(let s__ := indices %s %s in (sstart s__, sstop s__, (1)))" % (base[0], arg[0]),
+                        ('T', 'Z', 'Z', 'Z'))
         name = self.callname(n.func)
         if n.keywords:
             _fail(n, "keyword arguments in call to %s" % name)
+        if name == "slice" and len(n.args) == 3 and "slice3" in self.calls:
+            name = "slice3"     # [C10] spec-provided model of slice(a, b, step) with an int step expression
         if name == "slice" and len(n.args) == 3:
             st = n.args[2]
             unit = (isinstance(st, ast.Constant) and st.value in (None, 1)) or \
@@ -240,6 +320,8 @@ class Fn:
                 _fail(n, "slice with a step that is not None/1/<slice>.step")
             n = ast.Call(func=n.func, args=n.args[:2], keywords=[])
         args = [self.expr(a, env) for a in n.args]
+        if name == "list" and len(args) == 1 and self.static_kinds and isinstance(args[0][1], tuple) and args[0][1][0] == 'T':
+            return args[0]      # [C14] list(<small tuple>): same components; item assignment is a functional update
         if name == "slice" and len(args) == 2:
             if args[0][1] == 'Z' and args[1][1] == 'Z':
                 return ("(mk_slice %s %s)" % (args[0][0], args[1][0]), 'S')
@@ -280,7 +362,7 @@ class Fn:
             cname, atypes, rtype = self.calls[name]
             if len(atypes) != len(args):
                 _fail(n, "arity of %s" % name)
-            txt = " ".join(self.promote(n, a, t) for a, t in zip(args, atypes))
+            txt = " ".join(self.promote(n, a, t) for a, t in zip(args, atypes) if t != "_")   # "_": argument not passed on [C14]
             if 'F' in atypes or rtype == 'F':
                 self.uses_T = True
             return ("(%s %s)" % (cname, txt), rtype)
@@ -355,6 +437,35 @@ class Fn:
         base = re.sub(r"[^A-Za-z0-9_]", "_", name)
         return base if name not in env else "%s_%d" % (base, self.fresh)
 
+    def item_assign(self, s, env):
+        """[C14] `name[i] = value` on a LOCAL small tuple/list with a constant index: rebind name to the updated tuple."""
+        t0 = s.targets[0]
+        if not (isinstance(t0.value, ast.Name) and isinstance(t0.slice, ast.Constant) and isinstance(t0.slice.value, int)):
+            _fail(s, "item assignment target")
+        oname = t0.value.id
+        if oname not in env:
+            _fail(s, "item assignment on unknown name")
+        obj, ot = env[oname]
+        if obj == oname and oname in [a.arg for a in self.fdef.args.args]:
+            _fail(s, "item assignment on a parameter (visible side effect)")
+        if not (isinstance(ot, tuple) and ot[0] == 'T'):
+            _fail(s, "item assignment on %s" % (ot,))
+        k = len(ot) - 1
+        i = t0.slice.value
+        if not 0 <= i < k:
+            _fail(s, "item index out of range")
+        val = self.expr(s.value, env)
+        vs = ["a%d__" % j for j in range(k)]
+        new = list(vs)
+        new[i] = val[0]
+        txt = "(let '(%s) := %s in (%s))" % (", ".join(vs), obj, ", ".join(new))
+        nt = list(ot)
+        nt[1 + i] = val[1]
+        nv = self.var(oname, env)
+        env2 = dict(env)
+        env2[oname] = (nv, tuple(nt))
+        return nv, txt, env2
+
     def block(self, stmts, env, rtype):
         if not stmts:
             _fail(self.fdef, "control reaches end of function without return")
@@ -375,6 +486,24 @@ class Fn:
         if isinstance(s, ast.Assign):
             if len(s.targets) != 1:
                 _fail(s, "chained assignment")
+            t0 = s.targets[0]
+            if isinstance(t0, ast.Attribute) and isinstance(t0.value, ast.Name) and t0.attr in self.setters:
+                # [C10] `local.attr = value` on a record-typed LOCAL (never a parameter: no hidden side effect)
+                oname = t0.value.id
+                if oname in [a.arg for a in self.fdef.args.args] or oname not in env:
+                    _fail(s, "attribute write on a parameter or unknown object")
+                obj, ot = env[oname]
+                if not (isinstance(ot, tuple) and ot[0] == 'R' and t0.attr in self.records.get(ot[1], {})):
+                    _fail(s, "attribute write on %s" % (ot,))
+                val = self.promote(s, self.expr(s.value, env), self.records[ot[1]][t0.attr][1])
+                nv = self.var(oname, env)
+                env2 = dict(env)
+                env2[oname] = (nv, ot)
+                return "let %s := (%s %s %s) in\n%s" % (nv, self.setters[t0.attr], obj, val,
+                                                       self.block(rest, env2, rtype))
+            if isinstance(t0, ast.Subscript) and self.static_kinds:
+                nv, txt, env2 = self.item_assign(s, env)      # [C14]
+                return "let %s := %s in\n%s" % (nv, txt, self.block(rest, env2, rtype))
             tx = self.expr(s.value, env)
             pat, env2 = self.bind(s.targets[0], tx, env, s)
             return "let %s := %s in\n%s" % (pat, tx[0], self.block(rest, env2, rtype))
@@ -385,6 +514,9 @@ class Fn:
             pat, env2 = self.bind(s.target, tx, env, s)
             return "let %s := %s in\n%s" % (pat, tx[0], self.block(rest, env2, rtype))
         if isinstance(s, ast.If):
+            sc = self.static_cond(s.test, env)
+            if sc is not None:     # [C14] decided by the declared kinds: translate the live branch only
+                return self.block(list(s.body if sc else s.orelse) + rest, env, rtype)
             c = self.expr(s.test, env)
             if c[1] != 'B':
                 _fail(s, "condition of type %s" % (c[1],))
@@ -416,8 +548,13 @@ class Fn:
         """A fall-through branch as a tuple-valued expression over variables vs."""
         env2 = dict(env)
         lets = []
-        for s in stmts:
+        todo = list(stmts)
+        while todo:
+            s = todo.pop(0)
             if isinstance(s, ast.Pass) or (isinstance(s, ast.Expr) and isinstance(s.value, ast.Constant)):
+                continue
+            if isinstance(s, ast.If) and self.static_cond(s.test, env2) is not None:   # [C14] live branch only
+                todo = list(s.body if self.static_cond(s.test, env2) else s.orelse) + todo
                 continue
             if isinstance(s, ast.Assign) and len(s.targets) == 1:
                 tx = self.expr(s.value, env2)
@@ -489,7 +626,7 @@ class Fn:
             env[extra] = (extra, t)
         rtype = spec.get("ret")
         if isinstance(rtype, list):
-            rtype = tuple(rtype)
+            rtype = _tup(rtype)
         body = self.block(list(self.fdef.body), env, rtype)
         rt = coq_type(rtype) if rtype else None
         if spec.get("option_result") and rt:
@@ -520,7 +657,7 @@ def translate_module(repo, modname, mod):
     """mod: {"functions": [spec...], "generic": bool}. Returns Coq text."""
     out = ["(* GENERATED by tools/py2coq.py from the current /repo working tree -- do not edit. *)",
            "From Coq Require Import ZArith Bool List.",
-           "From PR Require Import Base.Slice Base.Num.",
+           "From PR Require Import Base.Slice Base.Num%s." % "".join(" " + m for m in mod.get("imports", [])),
            "Import ListNotations.",
            "Open Scope Z_scope.", ""]
     defs = []
